@@ -130,6 +130,12 @@ func Load(cfg LoadConfig) (*Program, error) {
 		p.repoPkgs[sp] = true
 	}
 	visit(p.Main)
+	// a few standard-library packages whose package-level variables the models rely on (io.EOF, ...)
+	for _, name := range []string{"io"} {
+		if sp := p.Pkgs[name]; sp != nil {
+			inits = append([]*ssa.Package{sp}, inits...)
+		}
+	}
 	p.InitPkgs = inits
 	ep := p.Pkgs["errors"]
 	if ep == nil {
